@@ -36,3 +36,7 @@ Definition py_next {A} (it : list A * nat) : result (A * (list A * nat)) :=
   | Some x => Ok (x, (fst it, Nat.modulo (S (snd it)) (length (fst it))))
   | None => Err EStop
   end.
+(* KafkaCodec.decode_join_group_protocol_metadata(b) as the translated methods see it: the metadata object is its
+   .subscriptions list (kafkacodec.py:1010-1025 = Assign.dec_metadata; that function's own translator tie is C05gen) *)
+Definition py_decode_metadata (b : list Z) : result (list str) :=
+  bind (dec_metadata b) (fun x => Ok (snd (fst x))).
